@@ -32,8 +32,12 @@ func uRowsOf(cells ...[]driver.Value) []uRow {
 }
 
 func uBuildScenario() uScenario {
-	s := uSchemas[vrt.Choice("schema", len(uSchemas))]
-	sc := uScenario{s: s}
+	return uBuildScenarioFor(uSchemas[vrt.Choice("schema", len(uSchemas))], "")
+}
+
+func uBuildScenarioFor(s uSchema, prefix string) (sc uScenario) {
+	sc = uScenario{s: s}
+	defer func() { sc.tag = prefix + sc.tag }()
 	untouched := uCells(s, "other", 50)
 	switch vrt.Choice("program", 5) {
 	case 0: // UPDATE of one row
@@ -96,11 +100,15 @@ func uSameTable(s uSchema, a, b []uRow) bool {
 }
 
 func uStart(sc uScenario) *uWorld {
+	return uStartWith(sc, sc.tag == "update1" && vrt.Choice("dataValidation", 2) == 1)
+}
+
+func uStartWith(sc uScenario, validate bool) *uWorld {
 	xid, branchID := vrt.String("xid", 2), int64(1+vrt.Choice("branch", 2))
 	w := uSetup(sc.s, &undo.BranchUndoLog{Xid: xid, BranchID: uint64(branchID), Logs: sc.logs}, xid, branchID)
-	// data validation (integer comparison through float64: slow solver queries)
-	// is exercised for the single-row update only; C09 covers it in depth
-	undo.UndoConfig.DataValidation = sc.tag == "update1" && vrt.Choice("dataValidation", 2) == 1
+	// data validation is exercised for the single-row update only in the integer
+	// schemas (C09 covers it in depth), for every program in the typed ones
+	undo.UndoConfig.DataValidation = validate
 	w.addUndoLog()
 	w.d.rows = cloneRows(sc.now)
 	return w
@@ -109,7 +117,22 @@ func uStart(sc uScenario) *uWorld {
 // VerifC01Rollback: one delivery of the rollback, with and without a failing statement.
 func VerifC01Rollback() {
 	sc := uBuildScenario()
-	w := uStart(sc)
+	c01Rollback(sc, uStart(sc))
+}
+
+// VerifC01Typed: the same over a table with a nullable VARCHAR and a nullable
+// BIGINT column (each cell NULL or a value) or with a DECIMAL column, data
+// validation on or off, the undo log through the real JSON parser.
+func VerifC01Typed() {
+	s, prefix := uTyped, "typed-"
+	if vrt.Choice("table", 2) == 1 {
+		s, prefix = uTypedDecimal, "decimal-"
+	}
+	sc := uBuildScenarioFor(s, prefix)
+	c01Rollback(sc, uStartWith(sc, vrt.Bool("dataValidation")))
+}
+
+func c01Rollback(sc uScenario, w *uWorld) {
 	w.d.failAt = vrt.Choice("failAt", vrt.Param("maxfail", 12)+1) - 1
 	st, err, panicked := w.rollback()
 	vrt.Observe("stub.bad", w.d.bad)
